@@ -51,7 +51,7 @@ def main():
             "guard": "lexgen_verif",
             "enable": "rustflags = [\"--cfg\", \"lexgen_verif\"] in the generated harness workspaces (build/<check>/ws/.cargo/config.toml); path dependencies on /repo/crates/lexgen and /repo/crates/lexgen_util; source files of /repo included with #[path] where no crate boundary exists",
             "baseline_off_cmd": "cd /repo && cargo test --workspace --no-fail-fast --offline",
-            "source_commits": ["364e427", "743eaf5", "028cf49"],
+            "source_commits": ["364e427", "743eaf5", "028cf49", "db9ade9", "6ea72f9", "d85da5b"],
             "add_only": True,
         },
         "engines": [
